@@ -125,6 +125,14 @@ def add_remove_agreement(ctx):
     ctx.check(added <= removed_d and calls_unsub, f'{deact.qualname}:mirrors activate', deact.node,
               f'deactivate/unsubscribe discard from {sorted(removed_d)}',
               f'deactivate does not undo everything activate registers ({sorted(added)} vs {sorted(removed_d)})', deact)
+    # remove_connection -> reset_connection runs on the closing connection's thread WITHOUT the dispatcher lock, concurrently with
+    # subscribe() (setdefault(...).add(conn)): the table itself must not shrink there
+    for f in (rst, unsub, m.method(D, 'remove_connection', inherited=False)):
+        dels = [n for n in body_walk(f.node) if (isinstance(n, ast.Call) and call_attr(n) in ('pop', 'popitem', 'clear') and src(n.func.value) == 'self._subscriptions')
+                or (isinstance(n, ast.Delete) and any('self._subscriptions[' in src(t) for t in n.targets))]
+        ctx.check(not dels, f'{f.qualname}:subscription table keeps its keys', dels[0] if dels else f.node, 'only connections are discarded from the sets',
+                  f'`{src(dels[0]) if dels else ""}` removes a key of _subscriptions on the disconnect path, which runs without the dispatcher lock: a concurrent '
+                  'subscribe() between setdefault() and add() adds its connection to an orphaned set - it gets `active` but never an update', f)
     # module-level unsubscribe also removes module:param entries
     ok = False
     for n in body_walk(unsub.node):
